@@ -782,3 +782,15 @@ M("C16", "Lindbladian diagonal pairs start at i + 2", "kill",
   [(LOF, "            for j in range(i + 1, self.nqubits):\n                i_fixed = i_fixed.view(2**i, 2 ** (j - i - 1), 2, -1)\n                # replacing", "            for j in range(i + 2, self.nqubits):\n                i_fixed = i_fixed.view(2**i, 2 ** (j - i - 1), 2, -1)\n                # replacing")], "HAM-form")
 M("C06", "Lindbladian diagonal second axis off by one", "kill",
   [(LOF, "                i_fixed = i_fixed.view(2**i, 2 ** (j - i - 1), 2, -1)\n                # replacing", "                i_fixed = i_fixed.view(2**i, 2 ** (j - i), 2, -1)\n                # replacing")], "HAM-form")
+MPSF = "emu_mps/mps.py"
+M("C11", "MPS.apply contracts the operator's row index (applies the transpose)", "kill",
+  [(MPSF, "        self.factors[qubit_index] = (\n            single_qubit_operator.to(self.factors[qubit_index].device)\n            @ self.factors[qubit_index]\n        )",
+    "        factor = self.factors[qubit_index]\n        self.factors[qubit_index] = (\n            torch.tensordot(factor, single_qubit_operator.to(factor.device), dims=([1], [0]))\n            .transpose(1, 2)\n            .contiguous()\n        )")], "APPLY-op")
+M("C17", "MPS.apply multiplies from the right", "kill",
+  [(MPSF, "            single_qubit_operator.to(self.factors[qubit_index].device)\n            @ self.factors[qubit_index]\n", "            self.factors[qubit_index].transpose(1, 2)\n            @ single_qubit_operator.to(self.factors[qubit_index].device)\n")], "APPLY-op")
+M("C11", "twin: MPS.apply as a tensordot over the operator's column index", "twin",
+  [(MPSF, "        self.factors[qubit_index] = (\n            single_qubit_operator.to(self.factors[qubit_index].device)\n            @ self.factors[qubit_index]\n        )",
+    "        factor = self.factors[qubit_index]\n        self.factors[qubit_index] = (\n            torch.tensordot(factor, single_qubit_operator.to(factor.device), dims=([1], [1]))\n            .transpose(1, 2)\n            .contiguous()\n        )")])
+M("C11", "twin: MPS.apply as an einsum", "twin",
+  [(MPSF, "        self.factors[qubit_index] = (\n            single_qubit_operator.to(self.factors[qubit_index].device)\n            @ self.factors[qubit_index]\n        )",
+    "        self.factors[qubit_index] = torch.einsum(\n            \"ij,ajb->aib\", single_qubit_operator.to(self.factors[qubit_index].device), self.factors[qubit_index]\n        )")])
